@@ -415,3 +415,47 @@ def c04(ctx):
     ctx.cov["binding_selftest"] = {"both-labels": x["status"]}
     ctx.cov["rule"] = ("one evaluation = one complete session transcript scanned at every byte offset; non-trivial = both parties "
                        "have input bits (OT is used) or a streaming / sha2pc session")
+
+
+@prop("C16")
+def c16(ctx):
+    thorough = ctx.tier == "thorough"
+    ctx.build()
+    ctx.assumptions += ["a corruption that turns one label into the wire's other label needs mask = R (probability 2^-128 for fixed masks)",
+                        "OT is ideal in the model; real OT bytes are corrupted like all others",
+                        "a party that errs drops the connection; a dead session is aborted after 150 ms without progress"]
+    # (M) fault action Corrupt on every field of both directions
+    ctx.tlc_expect_ok("TwoParty", "TwoParty_c16.cfg", name="tp-faults-1", timeout=3000,
+                      cfg_text=TP_CFG % ("PSpec", 2, 1, "TRUE", 1, "INVARIANT NeverWrong"))
+    ctx.tlc_expect_ok("TwoParty", "TwoParty_c16.cfg", name="tp-faults-2", timeout=3400,
+                      cfg_text=TP_CFG % ("PSpec", 2, 2, "FALSE", 2 if thorough else 1, "INVARIANT NeverWrong"))
+    trace = os.path.join(ctx.tmp, "corrupt_trace.ndjson")
+    res = os.path.join(ctx.tmp, "c16res.ndjson")
+    ctx.run_vh(["c16", "run", trace, res, 0 if thorough else 360], timeout=6 * 3600)
+    n = ctx.absorb(res)
+    t = ctx.tlc("CorruptTrace", "CorruptTrace.cfg", mode="trace", files=[trace], timeout=3000)
+    if t["status"] == "invariant" and t.get("which") == "NeverWrong":
+        ctx.violation("trace:NeverWrong", "a corrupted run returned a wrong value", t["out"][-2000:])
+    elif t["status"] == "invariant":
+        ctx.drift.append("CorruptTrace.%s fails: the outcome class of a field class differs from TwoParty.tla\n%s" % (t.get("which"), t["out"][-1500:]))
+    elif t["status"] != "ok":
+        raise Broken("CorruptTrace failed: %s\n%s" % (t["status"], t["out"][-3000:]))
+    else:
+        ctx.cov["traces_validated_against_impl"] += n
+    # binding self-test
+    rows = read_ndjson(trace)
+    r2 = [dict(r) for r in rows]
+    i = next((i for i, r in enumerate(r2) if r["outcome"] == "value"), None)
+    if i is not None:
+        r2[i]["correct"] = 0
+        p = os.path.join(ctx.tmp, "selftest", "corrupt_trace.ndjson")
+        os.makedirs(os.path.dirname(p), exist_ok=True)
+        write_ndjson(p, r2)
+        x = ctx.tlc("CorruptTrace", "CorruptTrace.cfg", mode="trace", files=[p], name="corrupt-selftest")
+        if x["status"] != "invariant":
+            raise Broken("binding self-test: CorruptTrace accepted a wrong value")
+        ctx.cov["binding_selftest"] = {"wrong-value": x["status"]}
+    ctx.cov["exhaustive"] = bool(thorough)
+    ctx.cov["rule"] = ("one evaluation = one complete session with one corrupted byte range; non-trivial = the corruption changed "
+                       "the garbler's outcome (error/stall/crash) or hit the final result message; classes are kind:dir:field:outcome")
+    ctx.check_drift()
